@@ -11,8 +11,9 @@ import sys
 class FakeSock:
     """scripted socket: each send/recv call pops an action: int (bytes accepted / delivered count), bytes, or Exception"""
 
-    def __init__(self, script=(), peer=("10.0.0.9", 4000)):
-        self.script = list(script)
+    def __init__(self, script=(), peer=("10.0.0.9", 4000), send_script=None):
+        self.script = list(script)                 # recv / do_handshake outcomes
+        self.send_script = None if send_script is None else list(send_script)   # None: the kernel accepts everything
         self.closed = False
         self.wire = b""
         self.peer = peer
@@ -27,9 +28,15 @@ class FakeSock:
         return ssl.SSLWantReadError(ssl.SSL_ERROR_WANT_READ, "want read") if self.tls else BlockingIOError(errno.EAGAIN, "would block")
 
     def send(self, data):
-        a = self._next()
+        if self.send_script is None:
+            a = len(data)
+        elif self.send_script:
+            a = self.send_script.pop(0)
+        else:
+            a = ssl.SSLWantWriteError(ssl.SSL_ERROR_WANT_WRITE, "want write") if self.tls else BlockingIOError(errno.EAGAIN, "would block")
         if isinstance(a, BaseException):
             raise a
+        a = min(a, len(data))
         self.wire += bytes(data[:a])
         return a
 
@@ -62,7 +69,7 @@ class FakeSock:
 
 def _remoter(script, tls=False):
     from hio.core.tcp import serving
-    cs = FakeSock(script)
+    cs = FakeSock(send_script=script)
     rm = serving.Remoter(ha=("10.0.0.1", 5000), ca=("10.0.0.9", 4000), cs=cs)
     return rm, cs
 
@@ -85,7 +92,8 @@ def c10_epipe_escapes_server_service():
     rb = serving.Remoter(ha=("10.0.0.1", 5000), ca=b.peer, cs=b)
     srv.ixes[a.peer], srv.ixes[b.peer] = ra, rb
     ra.tx(b"data")
-    a.script = [BlockingIOError(errno.EAGAIN, "x"), BrokenPipeError(errno.EPIPE, "Broken pipe")]
+    a.script = [BlockingIOError(errno.EAGAIN, "x")]
+    a.send_script = [BrokenPipeError(errno.EPIPE, "Broken pipe")]
     srv.serviceAccepts = lambda: None
     try:
         srv.service()
